@@ -247,7 +247,7 @@ fn rep(inner: &Node, min: usize, max: Option<usize>, count: usize, s: &[char], i
 pub fn is_match(pattern: &str, subject: &str, search: bool) -> Option<bool> {
     let n = parse(pattern)?;
     let s: Vec<char> = subject.chars().collect();
-    let fuel = std::cell::Cell::new(2_000_000u64);
+    let fuel = std::cell::Cell::new(150_000u64);
     let starts: Vec<usize> = if search { (0..=s.len()).collect() } else { vec![0] };
     for st in starts {
         let mut k = |j: usize| -> bool { search || j == s.len() };
